@@ -26,5 +26,5 @@ ASSUMPTIONS = ["AES-SIV replaced by the ideal AEAD: Open succeeds exactly on (ke
                "soundness is checked against adversary packets that keep the extension-field layout (types and lengths) of the sealed packet; packets with a different layout are covered for crash-freedom by C08 but not for acceptance here"]
 EXPLANATION = ""
 CLAIMED = True
-LEVEL_TEXT = "Bounded model checking of the real NTS encoder / decoder / ProcessRequest / ProcessResponse and of the cookie seal/open code against an ideal AEAD: completeness (own packets accepted under the same key) and soundness against every layout-preserving adversary packet and every other key / request id: acceptance implies equal key, equal bytes before the authenticator, equal nonce and ciphertext, equal unique id; cookies open only under the sealing key and yield the sealed algorithm and keys."
-LEVEL_NOTE = "AES-SIV replaced by the ideal AEAD (INT-CTXT + correctness); adversary packets keep the extension layout of the sealed packet (fully symbolic layouts are covered for crash-freedom only, C08); unique id 32 bytes, cookie 8 bytes; the key-direction use in the server loop and ExportKeys are covered by C20/not at all (see DESIGN)."
+LEVEL_TEXT = "Bounded model checking of the real NTS encoder / decoder / ProcessRequest / ProcessResponse and of the cookie seal/open code against an ideal AEAD: completeness (own packets accepted under the same key) and soundness against every layout-preserving adversary packet and every other key / request id: acceptance implies equal key, equal bytes before the authenticator, equal nonce and ciphertext, equal unique id; cookies open only under the sealing key and yield the sealed algorithm and keys; additionally: bytes or a well-formed extension field appended after the authenticator change nothing that is accepted, one changed header byte of the authenticator field (type, low length bytes) does not get a request or response accepted without the sealed nonce and ciphertext, and an authentic response to a different (also longer) unique identifier is refused."
+LEVEL_NOTE = "AES-SIV replaced by the ideal AEAD (INT-CTXT + correctness); adversary packets keep the extension layout of the sealed packet, change one header byte of the authenticator field (values <= 48) or append 36 bytes (fully symbolic layouts are covered for crash-freedom only, C08); unique id 32 bytes, cookie 8 bytes; the key-direction use in the server loop and ExportKeys are covered by C20/not at all (see DESIGN)."
